@@ -4,7 +4,10 @@ import Fcgi.Proofs.E2ERun
 
 `closedLoop`: the executor `runTask` driven by a client that keeps one request outstanding: whenever
 the task has parked (`STALL`) the client sends the next request's bytes and the task is woken.
-`chain_run`: for a chain of KEEP_CONN requests (`Linked`) every request is served in turn.
+`chain_run`: for a chain of KEEP_CONN requests (`Linked`) every request is served in turn.  The write
+log at which a request starts depends on how the previous ones were served (which of the replies
+owed for stream noise came before resp. after the handler's output), so the `L0` fields of the
+configurations after the first are ignored and threaded through instead (`LogChain`).
 -/
 namespace Fcgi.E2E
 open Fcgi Fcgi.Req Fcgi.Str Fcgi.Async Fcgi.Run Fcgi.Spec
@@ -24,7 +27,6 @@ def closedLoop (fuel : Nat) : List Bytes → Conn → Nat → Conn × String
 structure Linked (g g2 : Cfg) : Prop where
   b : g2.b = g.b
   mc : g2.mc = g.mc
-  L0 : g2.L0 = g.L3
   hs0 : g2.hs0 = g.hs0 + 1
   more : g.more = (script g2.data g2.st, true) :: g2.more
   keep : g.p.flags.toNat % 2 = 1
@@ -33,13 +35,35 @@ def ChainFrom : Cfg → List Cfg → Prop
   | _, [] => True
   | g, g2 :: gs => Linked g g2 ∧ ChainFrom g2 gs
 
+/-- `g` started at write log `L` -/
+def Cfg.at (g : Cfg) (L : Bytes) : Cfg := { g with L0 := L }
+
+theorem Cfg.OK.at {g : Cfg} (ok : g.OK) (L : Bytes) : (g.at L).OK :=
+  ⟨ok.wf, ok.role, ok.pairs, ok.noise, ok.body, ok.sfits, ok.padlen, ok.hfuel⟩
+
+/-- the write log after the requests `gs` were served one after the other, starting from `L` -/
+def LogChain : Bytes → List Cfg → Bytes → Prop
+  | L, [], L' => L' = L
+  | L, g :: gs, L' => ∃ O1 O2, O1 ++ O2 = g.Ot ∧ LogChain ((g.at L).L3 O1 O2) gs L'
+
+/-- the last request of the chain -/
+def lastP (g : Cfg) (gs : List Cfg) : Cfg := (g :: gs).getLast (by simp)
+
+theorem lastP_cons (g g2 : Cfg) (gs : List Cfg) : lastP g (g2 :: gs) = lastP g2 gs := by
+  simp [lastP, List.getLast_cons_cons]
+
+theorem lastP_at (g : Cfg) (gs : List Cfg) (L : Bytes) : ∃ L', lastP (g.at L) gs = (lastP g gs).at L' := by
+  cases gs with
+  | nil => exact ⟨L, rfl⟩
+  | cons g2 gs => exact ⟨(lastP g2 gs).L0, by rw [lastP_cons, lastP_cons]; rfl⟩
+
 theorem track_nil (cap mc : Nat) : track cap mc [] = ⟨cap, [], .header, mc⟩ := by
   simp only [track, resting_header mc]
 
 /-- The parked connection, fed the next request, stands at the start of that request's
 `parse_request` (mid-`read`, nothing consumed yet). -/
-theorem next_stage {g g2 : Cfg} {c : Conn} (hp : Parked g c) (hl : Linked g g2) :
-    Stage g2 (feed c g2.W) := by
+theorem next_stage {g g2 : Cfg} {O1 O2 : Bytes} {c : Conn} (hp : Parked g O1 O2 c) (hl : Linked g g2)
+    (hL : g2.L0 = g.L3 O1 O2) : Stage g2 (feed c g2.W) := by
   have hcap : g2.cap = g.cap := by simp only [Cfg.cap, hl.b]
   refine .parse (F := []) ⟨?_, hp.stop, ⟨hp.ben.rd, hp.ben.wr, hp.ben.hold, hp.ben.em⟩, ?_, Or.inl ⟨?_, ?_, ?_⟩⟩
     (hp.sc.trans hl.more) hp.mtx (hp.ev.1.trans hl.hs0.symm)
@@ -50,53 +74,86 @@ theorem next_stage {g g2 : Cfg} {c : Conn} (hp : Parked g c) (hl : Linked g g2) 
     rw [hp.ph, track_nil, hcap, hl.mc]
   · rw [resting_header]; rfl
   · show c.env.tr.wlog = g2.L0 ++ _
-    rw [resting_header, hp.log, hl.L0]; simp
+    rw [resting_header, hp.log, hL]; simp
+
+theorem Linked.at_right {g g2 : Cfg} (h : Linked g g2) (L : Bytes) : Linked g (g2.at L) :=
+  ⟨h.b, h.mc, h.hs0, h.more, h.keep⟩
+
+theorem ChainFrom.at_left : ∀ {gs : List Cfg} {g : Cfg} (_ : ChainFrom g gs) (L : Bytes), ChainFrom (g.at L) gs
+  | [], _, _, _ => trivial
+  | _ :: _, _, h, _ => ⟨⟨h.1.b, h.1.mc, h.1.hs0, h.1.more, h.1.keep⟩, h.2⟩
+
+/-- How the closed loop ends, in terms of the last request `gl` of the chain. -/
+structure ChainEnd (gl : Cfg) (c' : Conn) (fin : String) : Prop where
+  hs : hsCount c'.env.tr.events = gl.hs0 + 1
+  sc : c'.scripts = gl.more
+  fin : (fin = "RET" ∧ c'.phase = .finished ∧
+          (gl.p.flags.toNat % 2 = 0 ∨ (gl.p.flags.toNat % 2 = 1 ∧ c'.env.tr.endMode = .eof))) ∨
+        (fin = "STALL" ∧ c'.phase = .parseReq ⟨gl.cap, [], .header, gl.mc⟩ .reading ∧
+          c'.env.tr.input = [] ∧ gl.p.flags.toNat % 2 = 1)
+
+theorem ChainEnd.at {gl : Cfg} {L : Bytes} {c' : Conn} {fin : String} (h : ChainEnd (gl.at L) c' fin) :
+    ChainEnd gl c' fin := ⟨h.hs, h.sc, h.fin⟩
 
 theorem chain_run : ∀ (gs : List Cfg) (g : Cfg) (c : Conn) (n fuel : Nat),
     Stage g c → c.env.segs = [] → c.env.tr.endMode = .pend → ans c.env.tr + 1 ≤ fuel →
     4 * c.env.tr.input.length + 17 ≤ 100000 → g.OK →
     (∀ g' ∈ gs, g'.OK ∧ 4 * g'.W.length + 17 ≤ 100000) → ChainFrom g gs →
     ∃ c' fin, closedLoop fuel (gs.map Cfg.W) c n = (c', fin) ∧
- (∀ s, s ∈ c.env.tr.events → s ∈ c'.env.tr.events) ∧ c'.env.tr.endMode = .pend ∧
-      ((fin = "RET" ∧ Fin ((g :: gs).getLast (by simp)) c') ∨
-       (fin = "STALL" ∧ Parked ((g :: gs).getLast (by simp)) c')) ∧
+      (∀ s, s ∈ c.env.tr.events → s ∈ c'.env.tr.events) ∧ c'.env.tr.endMode = .pend ∧
+      LogChain g.L0 (g :: gs) c'.env.tr.wlog ∧ ChainEnd (lastP g gs) c' fin ∧
       (∀ g' ∈ g :: gs, hsEvent g'.p.request ∈ c'.env.tr.events ∧ rEvent g'.content ∈ c'.env.tr.events) := by
   intro gs
   induction gs with
   | nil =>
     intro g c n fuel hst hsegs hem hf hlen ok _ _
-    obtain ⟨c', ⟨hem', _, _, hevm⟩, hres⟩ := run_from_stage ok (ans c.env.tr) c n fuel hst hsegs (Nat.le_refl _) hf hlen
+    obtain ⟨c', ⟨hem', _, _, hevm⟩, O1, O2, hO, hres⟩ :=
+      run_from_stage ok (ans c.env.tr) c n fuel hst hsegs (Nat.le_refl _) hf hlen
     rcases hres with ⟨hrun, hfin⟩ | ⟨hrun, hpk⟩
-    · refine ⟨c', "RET", hrun, hevm, hem'.trans hem, Or.inl ⟨rfl, hfin⟩, fun g' hg' => ?_⟩
+    · refine ⟨c', "RET", hrun, hevm, hem'.trans hem, ⟨O1, O2, hO, hfin.log⟩,
+        ⟨hfin.ev.1, hfin.sc, Or.inl ⟨rfl, hfin.ph, hfin.why⟩⟩, fun g' hg' => ?_⟩
       rw [List.mem_singleton.1 hg']
       exact ⟨hfin.ev.2, hfin.re⟩
-    · refine ⟨c', "STALL", hrun, hevm, hem'.trans hem, Or.inr ⟨rfl, hpk⟩, fun g' hg' => ?_⟩
+    · refine ⟨c', "STALL", hrun, hevm, hem'.trans hem, ⟨O1, O2, hO, hpk.log⟩,
+        ⟨hpk.ev.1, hpk.sc, Or.inr ⟨rfl, hpk.ph, hpk.inp, hpk.keep⟩⟩, fun g' hg' => ?_⟩
       rw [List.mem_singleton.1 hg']
       exact ⟨hpk.ev.2, hpk.re⟩
   | cons g2 gs ih =>
     intro g c n fuel hst hsegs hem hf hlen ok hall hch
     obtain ⟨hl, hch2⟩ := hch
-    obtain ⟨c', ⟨hem', hans', hsegs', hevm⟩, hres⟩ :=
+    obtain ⟨c', ⟨hem', hans', hsegs', hevm⟩, O1, O2, hO, hres⟩ :=
       run_from_stage ok (ans c.env.tr) c n fuel hst hsegs (Nat.le_refl _) hf hlen
     rcases hres with ⟨hrun, hfin⟩ | ⟨hrun, hpk⟩
     · exfalso
       rcases hfin.why with h | ⟨_, h⟩
       · have := hl.keep; omega
       · rw [hem', hem] at h; cases h
-    · have hst2 := next_stage hpk hl
+    · have hst2 := next_stage (g2 := g2.at (g.L3 O1 O2)) hpk (hl.at_right _) rfl
       obtain ⟨ok2, hlen2⟩ := hall g2 (List.mem_cons_self)
-      obtain ⟨c2, fin2, hrun2, hevm2, hem2, hres2, hall2⟩ := ih g2 (feed c' g2.W) (n + 1000) fuel hst2 hsegs'
-        (by show c'.env.tr.endMode = .pend; rw [hem', hem])
-        (by show ans c'.env.tr + 1 ≤ fuel; omega) hlen2 ok2
-        (fun g' hg' => hall g' (List.mem_cons_of_mem _ hg')) hch2
-      refine ⟨c2, fin2, ?_, fun s hs => hevm2 s (hevm s hs), hem2, ?_, ?_⟩
+      obtain ⟨c2, fin2, hrun2, hevm2, hem2, hlog2, hend2, hall2⟩ :=
+        ih (g2.at (g.L3 O1 O2)) (feed c' g2.W) (n + 1000) fuel hst2 hsegs'
+          (by show c'.env.tr.endMode = .pend; rw [hem', hem])
+          (by show ans c'.env.tr + 1 ≤ fuel; omega) hlen2 (ok2.at _)
+          (fun g' hg' => hall g' (List.mem_cons_of_mem _ hg')) (hch2.at_left _)
+      obtain ⟨L', hL'⟩ := lastP_at g2 gs (g.L3 O1 O2)
+      refine ⟨c2, fin2, ?_, fun s hs => hevm2 s (hevm s hs), hem2, ⟨O1, O2, hO, ?_⟩, ?_, ?_⟩
       · simp only [closedLoop, List.map_cons, hrun, if_true]
         exact hrun2
-      · rw [List.getLast_cons_cons]
-        exact hres2
+      · have : (g.at g.L0) = g := by cases g; rfl
+        rw [this]
+        obtain ⟨P1, P2, hP, hrest⟩ := hlog2
+        exact ⟨P1, P2, hP, by
+          have h2 : ((g2.at (g.L3 O1 O2)).at (g2.at (g.L3 O1 O2)).L0) = g2.at (g.L3 O1 O2) := rfl
+          rw [h2] at hrest
+          exact hrest⟩
+      · rw [lastP_cons]
+        rw [hL'] at hend2
+        exact hend2.at
       · intro g' hg'
         rcases List.mem_cons.1 hg' with rfl | hg'
         · exact ⟨hevm2 _ hpk.ev.2, hevm2 _ hpk.re⟩
-        · exact hall2 g' hg'
+        · rcases List.mem_cons.1 hg' with rfl | hg''
+          · exact hall2 (g'.at (g.L3 O1 O2)) List.mem_cons_self
+          · exact hall2 g' (List.mem_cons_of_mem _ hg'')
 
 end Fcgi.E2E
